@@ -8,7 +8,9 @@ import subprocess
 import sys
 
 WT = "/tmp/seedverify"
-SRC = "/tmp/mut"
+SRC = sys.argv[1] if len(sys.argv) > 1 else "/tmp/mut"
+TAG = sys.argv[2] if len(sys.argv) > 2 else "m"      # id = <property>-<TAG><n>
+OUT = sys.argv[3] if len(sys.argv) > 3 else "/tmp/seedverify.json"
 
 
 def sh(cmd, cwd=None, env=None):
@@ -32,7 +34,7 @@ def main():
                 ported = os.path.exists(os.path.join(md, "ported.diff"))
                 patch = os.path.join(md, "ported.diff" if ported else "patch.diff")
                 demo = os.path.join(md, "demo.py")
-                rec = {"id": "%s-%s" % (pid, m), "property": pid, "ported_onto_fix_commits": ported}
+                rec = {"id": "%s-%s%s" % (pid, TAG, m[1:]), "property": pid, "ported_onto_fix_commits": ported, "dir": md}
                 env = dict(os.environ, PYTHONPATH="python")
                 base = sh("/venv/bin/python %s" % demo, cwd=WT, env=env)
                 rec["demo_passes_without_change"] = base.returncode == 0
@@ -50,7 +52,7 @@ def main():
                 sys.stdout.flush()
     finally:
         sh("git -C /repo worktree remove --force %s" % WT)
-    json.dump(out, open("/tmp/seedverify.json", "w"), indent=1)
+    json.dump(out, open(OUT, "w"), indent=1)
 
 
 if __name__ == "__main__":
